@@ -19,14 +19,16 @@ import (
 type P map[string]int
 
 type HSpec struct {
-	Name     string
-	Quick    P
-	Thorough P
-	Reach    []string // labels that must be reached on at least one feasible path
-	Int      bool     // needs the INT back ends
-	Unwind   int
-	NoTagToo bool // thorough: also run against the build without the verif tag
-	MaxPaths int
+	Name         string
+	Label        string // distinguishes several runs of one harness function
+	Quick        P
+	Thorough     P
+	Reach        []string // labels that must be reached on at least one feasible path
+	Int          bool     // needs the INT back ends
+	Unwind       int
+	NoTagToo     bool // thorough: also run against the build without the verif tag
+	ThoroughOnly bool
+	MaxPaths     int
 }
 
 type PropSpec struct {
@@ -175,6 +177,9 @@ func runCheck(spec *PropSpec, tier string, seed, workers int) int {
 		if tier == "thorough" && hs.Thorough != nil {
 			params = hs.Thorough
 		}
+		if tier == "quick" && hs.ThoroughOnly {
+			continue
+		}
 		cfg := defaultCfg(hs.Name)
 		cfg.Workers = workers
 		cfg.IntSolvers = hs.Int
@@ -195,6 +200,9 @@ func runCheck(spec *PropSpec, tier string, seed, workers int) int {
 				return fail("engine error in " + hs.Name + ": " + firstLine(err.Error()))
 			}
 			hr.Name = hs.Name
+			if hs.Label != "" {
+				hr.Name = hs.Name + "/" + hs.Label
+			}
 			results = append(results, hr)
 			fmt.Printf("  %s [%s] paths=%d %v asserts=%d(+%d) failures=%d inconclusive=%d %.1fs\n", hs.Name, tier, hr.Paths, hr.ByStatus, hr.Asserts, hr.TrivAssert, len(hr.Failures), len(hr.Inconcl), hr.WallS)
 			for _, l := range hs.Reach {
